@@ -9,6 +9,7 @@ the specification's `mathValue`/`nearestF64` (compared with math/big in the harn
 import ZygoVerif.Model.PrintData
 import ZygoVerif.Model.EvalData
 import ZygoVerif.Spec.DataValue
+import ZygoVerif.Spec.LiteralHistory
 import ZygoVerif.Driver.Proto
 namespace ZygoVerif.Driver.Rt
 open ZygoVerif ZygoVerif.Proto ZygoVerif.PrintData ZygoVerif.EvalData ZygoVerif.Spec.DataValue
@@ -233,9 +234,72 @@ def litSpec (txt : List Char) : String :=
   | (.invalid, _) => "err"
   | _ => "-"
 
+/-! ### `rt H <mode> <step>…` — histories on one long-lived reader (harness/ch_rt_hist.go)
+
+Model column: every step read by the reader model FROM A FRESH STATE (`readAll`; Props/C12
+`model_reader_history_independent`: the model's answer does not depend on the state a history leaves).
+Spec column: `Spec.LiteralHistory.specAnswers` for the spellings (each judged by `require` alone), the
+number itself for a print step. The implementation column is produced on ONE reader in order. -/
+
+inductive HStep where
+  | lit (txt : List Char)
+  | pr (dv : DV)
+
+def parseHStep (w : String) : Option HStep :=
+  if w.startsWith "L:" then (parseCodes? (w.drop 2).toString).map (fun c => .lit (c.map Char.ofNat))
+  else if w.startsWith "Pi:" then (parseInt? (w.drop 3).toString).map (fun v => .pr (.int v))
+  else if w.startsWith "Pu:" then (w.drop 3).toString.toNat?.map (fun v => .pr (.uint v))
+  else if w.startsWith "Pd:" then
+    match (w.drop 3).toString.splitOn ":" with
+    | [b, t] => match parseHex? b, parseCodes? t with
+      | some bb, some tt => some (.pr (.flt bb false tt))
+      | _, _ => none
+    | _ => none
+  else none
+
+/-- modes r and e do not tell an error from a non-number -/
+def coarse (interp : Bool) (a : String) : String :=
+  if !interp then a
+  else if a == "err" || a == "none" || a == "multi" then "nonnum"
+  else if a == "?err" then "?nonnum"
+  else if a.startsWith "i " || a.startsWith "u " || a.startsWith "d " || a.startsWith "?" || a == "!num" then a
+  else "nonnum"
+
+def hstepModel (interp : Bool) : HStep → String
+  | .lit txt => coarse interp (literalAnswer txt)
+  | .pr dv => match toSexp? dv with
+    | some sx => coarse interp (match readAll (printSexp (fmtOf (floatTable dv)) sx) with
+        | none => "err"
+        | some [e] => if isNumber e then canonSexp e else "nonnum"
+        | some _ => "nonnum")
+    | none => "unmodelled"
+
+def hstepSpec (interp : Bool) (v : Option Verdict) : HStep → String
+  | .lit _ => coarse interp (match v with | some x => verdictString x | none => "-")
+  | .pr dv => canonDV dv
+
+def handleH (mode : String) (ws : List String) : String :=
+  match ws.mapM parseHStep with
+  | none => "bad-op\t-"
+  | some steps =>
+    if steps.isEmpty || !(mode == "p" || mode == "r" || mode == "e") then "bad-op\t-" else
+    let interp := mode != "p"
+    -- the spellings of the history, judged by the specification's (stateless) reader
+    let lits := steps.filterMap (fun s => match s with | .lit t => some t | _ => none)
+    let verdicts := Spec.LiteralHistory.specAnswers lits
+    let rec zipV : List HStep → List Verdict → List String
+      | [], _ => []
+      | (.lit t) :: r, v :: vs => hstepSpec interp (some v) (.lit t) :: zipV r vs
+      | (.lit t) :: r, [] => hstepSpec interp none (.lit t) :: zipV r []
+      | s :: r, vs => hstepSpec interp none s :: zipV r vs
+    let m := " | ".intercalate (steps.map (hstepModel interp))
+    let s := " | ".intercalate (zipV steps verdicts)
+    s!"{m}\t{s}"
+
 def handle (toks : List String) : String :=
   match toks with
   | [] => "bad-op\t-"
+  | "H" :: mode :: ws => handleH mode ws
   | op :: rest =>
     if op == "l" || op == "j" || op == "k" then
       match rest with
